@@ -29,4 +29,13 @@ Sym == Permutations(Clients) \cup Permutations(Workers)
 BagOf(s) == [x \in {s[i] : i \in DOMAIN s} |-> Cardinality({i \in DOMAIN s : s[i] = x})]
 MCView == <<cst, sent, pings, net, pending, incoming, streams, lpc, keys, cur, q, wst, wtask, outgoing, ext,
             shut, [c \in Clients |-> BagOf(sentTo[c])], rxn, dseq, iseq, admitted, tmo, flog>>
+
+\* "can happen" claims: each is the NEGATION of a situation the properties talk about; TLC must
+\* violate it (vacuity guard: the antecedents of the invariants are reachable)
+Reach_ParallelHandlers == ~(\A w \in Workers : wst[w] = "run")
+Reach_BroadcastToTwo   == ~(\E f \in flog : f.msg.k = "bc" /\ Cardinality(f.to) = 2)
+Reach_UnicastDropped   == ~(\E f \in flog : f.msg.k = "uni" /\ f.to = {})
+Reach_QuiescentDone    == ~(lpc = "done" /\ \E c \in Clients : Has(iseq[c], "M") /\ Has(iseq[c], "D"))
+Reach_TimeoutLive      == ~(\E c \in tmo : cst[c] = "open")
+Reach_MsgAfterVanish   == ~(\E c \in Clients : Gone(c) /\ Has(dseq[c], "M") /\ Has(dseq[c], "D"))
 =============================================================================
